@@ -308,7 +308,7 @@ MSG_RULE = ("BFS over histories of {pub by 4 users (one with forged sender heade
             "range lists, read/recv/kp/bogus notes with stale/valid/future ids, want/given flips of R and W, unsub/sub/leave/attach, reload} on a "
             "group topic holding 3 messages, depth 3 quick / 4 thorough; a set-semantics reference model runs along the history; after every "
             "transition each attached user probes {get data} with 6 range/limit shapes, {get del}, {get desc}, {get sub}. "
-            "p2p (C02, C03, C09): the same on a peer-to-peer topic (depth 4 in both tiers, the thorough tier with the larger alphabet; two more sessions of the participants watch their 'me' topics). chan (C02, C03, C09): BFS to depth 4 / 5 over 25 operations on a "
+            "p2p (C02, C03, C09): the same on a peer-to-peer topic (depth 4 quick / 6 thorough, the thorough tier with the larger alphabet; two more sessions of the participants watch their 'me' topics). chan (C02, C03, C09): BFS to depth 4 / 5 over 25 operations on a "
             "channel-enabled group (owner and member attached under the group name, two channel readers - one with two sessions - under the "
             "channel name, a stranger): publishes incl. by readers, reader attach / leave / unsubscribe, notes from members and readers, "
             "history reads, reload. suspended (C03): BFS to depth 6 / 7 over {member publishes to a group / p2p topic, root suspends / re-activates "
